@@ -406,10 +406,10 @@ theorem ballAabb_contains3 (pos : Iso3 K) (r : K) (hr : 0 ≤ r) (p : V3 K)
 theorem ballAabb_contains2 (pos : Iso2 K) (r : K) (hr : 0 ≤ r) (p : V2 K)
     (hp : (p.x - pos.t.x) * (p.x - pos.t.x) + (p.y - pos.t.y) * (p.y - pos.t.y) ≤ r * r) :
     letI := fieldNum K sq
-    InBox2 (ballAabb2 r pos) p := by
+    InBox2 (SC.ballAabb2 r pos) p := by
   have hx := abs_le_of_sq_le (p.x - pos.t.x) r hr (by nlinarith [mul_self_nonneg (p.y - pos.t.y)])
   have hy := abs_le_of_sq_le (p.y - pos.t.y) r hr (by nlinarith [mul_self_nonneg (p.x - pos.t.x)])
-  simp only [InBox2, ballAabb2, V2.add]
+  simp only [InBox2, SC.ballAabb2, V2.add]
   refine ⟨⟨?_, ?_⟩, ?_, ?_⟩ <;> linarith [hx.1, hx.2, hy.1, hy.2]
 
 private theorem lin_bound2 (r1 r2 d1 d2 h1 h2 : K) (e1 : |d1| ≤ h1) (e2 : |d2| ≤ h2) :
@@ -545,9 +545,9 @@ example : letI := fieldNum ℚ (fun x => x)
   by_contra h
   rw [Bool.not_eq_false] at h
   obtain ⟨_, _, ⟨hx, _⟩, _⟩ := cullNode2_weight_exact (K := ℚ) (fun x => x)
-    (@ballAabb2 ℚ (fieldNum ℚ (fun x => x)) (1/4) ⟨1, 0, ⟨-3/2, 6⟩⟩) ⟨⟨-1, -1/2⟩, ⟨1, 1/2⟩⟩ ⟨0, -2⟩ 100 0
-    (by norm_num) hundred_le_bigR (le_refl _) (by norm_num) (by simp only [ballAabb2, V2.add]; norm_num) h
-  simp only [ballAabb2, V2.add] at hx
+    (@SC.ballAabb2 ℚ (fieldNum ℚ (fun x => x)) (1/4) ⟨1, 0, ⟨-3/2, 6⟩⟩) ⟨⟨-1, -1/2⟩, ⟨1, 1/2⟩⟩ ⟨0, -2⟩ 100 0
+    (by norm_num) hundred_le_bigR (le_refl _) (by norm_num) (by simp only [SC.ballAabb2, V2.add]; norm_num) h
+  simp only [SC.ballAabb2, V2.add] at hx
   norm_num at hx
 
 /-- non-vacuity of `cullCuboid3_sound`: a unit cube turned a quarter turn about `z`, 1/2 above the box `[-1,1]³`,
